@@ -325,7 +325,7 @@ def check_translation(ck):
         p = os.path.join(ck.bdir, 'SelectArith_gen.v')
         open(p, 'w').write(txt)
         rc, out, dt = coqc(p)
-        ck.checker_cmds.append(f'coqc build/{ck.pid}/SelectArith_gen.v')
+        ck.checker_cmds.append(f'coqc build/{ck.pid}/run_<pid>/SelectArith_gen.v')
         ck.obligation('SelectArith_gen.v: improvement test, snapshot table, early-stop test, sentinels, direction-after-override, loop skeleton of RFM.fit and the '
                       'acceptance rule / encoding of fit_temperature, re-translated from the source, equal the hand model (reflexivity)', 'translation', rc == 0, out)
         return rc == 0
